@@ -38,6 +38,7 @@ pub mod client {
 
 pub mod server {
     use anyhow::Result;
+    use anyhow::bail;
     use tokio::io::AsyncReadExt;
     use tokio::io::AsyncWriteExt;
     use tokio::net::TcpStream;
@@ -46,6 +47,8 @@ pub mod server {
     use tokio_util::codec::Decoder;
 
     use crate::protocol::socks5::Socks5AuthMethod;
+    use crate::protocol::socks5::Socks5CommandStatus;
+    use crate::protocol::socks5::Socks5CommandType;
     use crate::protocol::socks5::codec::Socks5CommandRequestDecoder;
     use crate::protocol::socks5::codec::Socks5InitialRequestDecoder;
     use crate::protocol::socks5::message::Socks5CommandRequest;
@@ -54,9 +57,17 @@ pub mod server {
     use crate::protocol::socks5::message::Socks5Message;
 
     pub async fn no_auth(stream: &mut TcpStream, response: Socks5CommandResponse) -> Result<Socks5CommandRequest> {
-        read_message(stream, Socks5InitialRequestDecoder).await?;
+        let initial_request = read_message(stream, Socks5InitialRequestDecoder).await?;
+        if !initial_request.auth_methods.contains(&Socks5AuthMethod::NoAuth) {
+            write_message(stream, Socks5InitialResponse::new(Socks5AuthMethod::Unaccepted)).await?;
+            bail!("no acceptable auth method");
+        }
         write_message(stream, Socks5InitialResponse::new(Socks5AuthMethod::NoAuth)).await?;
         let command_request = read_message(stream, Socks5CommandRequestDecoder).await?;
+        if command_request.command_type == Socks5CommandType::Bind {
+            write_message(stream, Socks5CommandResponse::new(Socks5CommandStatus::Failure, response.bnd_addr)).await?;
+            bail!("unsupported command type: {:?}", command_request.command_type);
+        }
         write_message(stream, response).await?;
         Ok(command_request)
     }
